@@ -141,3 +141,84 @@ package tax
 //@   loop 2 invariant (t.Categories[idx1].Surcharge == nil ==> nt.Categories[idx1].Surcharge == nil) && (t.Categories[idx1].Surcharge != nil ==> nt.Categories[idx1].Surcharge != nil && fresh(nt.Categories[idx1].Surcharge) && *nt.Categories[idx1].Surcharge == *t.Categories[idx1].Surcharge)
 //@   loop 2 invariant len(nt.Categories[idx1].Rates) == len(t.Categories[idx1].Rates) && fresh(nt.Categories[idx1].Rates)
 //@   loop 2 invariant forall j int :: 0 <= j && j < idx ==> nt.Categories[idx1].Rates[j] != nil && fresh(nt.Categories[idx1].Rates[j]) && rowCopy(t.Categories[idx1].Rates[j], nt.Categories[idx1].Rates[j])
+//
+// ---- C01 / C03: the rounding rule applied at each documented point
+//@ spec upS(a num.Amount, e int) num.Amount = ite(e > a.exp, num.rescaleS(a, e), a)
+//@ spec applyRR(rr cbc.Key, a num.Amount, sub int) num.Amount = ite(rr == "currency", num.rescaleS(a, sub), upS(a, sub))
+//
+//@ func ApplyRoundingRule(rr, cur, amount) (r)
+//@   requires currency.defined(cur)
+//@   ensures r == applyRR(rr, amount, currency.subunits(cur))
+//
+// ---- C02 / C03: amounts per rate group, category sums, tax total
+//
+//@ spec addS(a num.Amount, b num.Amount) num.Amount = num.Amount(a.value + num.rescaleS(b, a.exp).value, a.exp)
+//@ spec subS(a num.Amount, b num.Amount) num.Amount = num.Amount(a.value - num.rescaleS(b, a.exp).value, a.exp)
+//@ spec pctOf(p num.Percentage, a num.Amount) num.Amount = num.Amount(rha(a.value * p.amount.value, pow10(p.amount.exp)), a.exp)
+// accumulator precision: kept under the currency rule, raised to the addend's under the precise rule
+//@ spec matchRR(rr cbc.Key, a num.Amount, b num.Amount) num.Amount = ite(rr == "currency", a, upS(a, b.exp))
+//
+//@ func matchRoundingPrecision(rr, a, b) (r)
+//@   ensures r == matchRR(rr, a, b)
+//
+// a row's amount is its percentage of its base (zero for an exempt row); the category amount
+// accumulates the row amounts
+//@ pred rowAmt(rt *RateTotal, zero num.Amount) num.Amount = ite(rt.Percent == nil, zero, pctOf(*rt.Percent, rt.Base))
+//@ rec foldRows(rs []*RateTotal, k int, zero num.Amount, rr cbc.Key) num.Amount = ite(k <= 0, zero, ite(rs[k-1].Percent == nil, foldRows(rs, k - 1, zero, rr), addS(matchRR(rr, foldRows(rs, k - 1, zero, rr), rowAmt(rs[k-1], zero)), rowAmt(rs[k-1], zero))))
+//@ pred rowsOK(rs []*RateTotal) bool = (forall i int :: 0 <= i && i < len(rs) ==> rs[i] != nil) && (forall i int, j int :: 0 <= i && i < j && j < len(rs) ==> rs[i] != rs[j])
+//
+//@ func (t *Total) calculateBaseCategoryTotal(ct, zero, rr) ()
+//@   opaque rha pow10
+//@   requires ct != nil && rowsOK(ct.Rates)
+//@   requires forall i int :: 0 <= i && i < len(ct.Rates) ==> ct.Rates[i].Surcharge == nil
+//@   modifies CategoryTotal.Amount, CategoryTotal.Surcharge, RateTotal.Amount, RateTotalSurcharge.Amount
+//@   footprint ct, ct.Rates
+//@   ensures [rows] forall i int :: 0 <= i && i < len(ct.Rates) ==> ct.Rates[i].Amount == old(rowAmt(ct.Rates[i], zero))
+//@   ensures [category] ct.Amount == old(foldRows(ct.Rates, len(ct.Rates), zero, rr))
+//@   ensures [bases] forall i int :: 0 <= i && i < len(ct.Rates) ==> ct.Rates[i].Base == old(ct.Rates[i].Base)
+//@   ensures [nosurcharge] ct.Surcharge == old(ct.Surcharge)
+//@   loop 1 invariant ct.Amount == old(foldRows(ct.Rates, idx, zero, rr))
+//@   loop 1 invariant forall i int :: 0 <= i && i < idx ==> ct.Rates[i].Amount == old(rowAmt(ct.Rates[i], zero))
+//@   loop 1 invariant ct.Rates == old(ct.Rates) && ct.Surcharge == old(ct.Surcharge) && zero == old(zero)
+//
+// the tax total adds ordinary categories and subtracts retained ones (surcharges included)
+//@ pred catTerm(ct *CategoryTotal, acc num.Amount) num.Amount = ite(ct.Retained, ite(ct.Surcharge != nil, subS(subS(acc, ct.Amount), *ct.Surcharge), subS(acc, ct.Amount)), ite(ct.Surcharge != nil, addS(addS(acc, ct.Amount), *ct.Surcharge), addS(acc, ct.Amount)))
+//@ pred catsOK(t *Total) bool = (forall i int :: 0 <= i && i < len(t.Categories) ==> t.Categories[i] != nil && rowsOK(t.Categories[i].Rates) && (forall j int :: 0 <= j && j < len(t.Categories[i].Rates) ==> t.Categories[i].Rates[j].Surcharge == nil)) && (forall i int, j int :: 0 <= i && i < j && j < len(t.Categories) ==> t.Categories[i] != t.Categories[j])
+//
+// rounding to the currency: every presented figure is rescaled to the currency's decimals,
+// the precise category amounts and sum are kept aside
+//@ func (t *Total) round(zero) ()
+//@   opaque rha pow10
+//@   requires t != nil && catsOK(t)
+//@   requires forall i int :: 0 <= i && i < len(t.Categories) ==> t.Categories[i].Surcharge == nil
+//@   requires forall i int, k int, j int, l int :: 0 <= i && i < len(t.Categories) && 0 <= k && k < len(t.Categories) && 0 <= j && j < len(t.Categories[i].Rates) && 0 <= l && l < len(t.Categories[k].Rates) && (i != k || j != l) ==> t.Categories[i].Rates[j] != t.Categories[k].Rates[l]
+//@   modifies Total.Sum, Total.sum, CategoryTotal.Amount, CategoryTotal.amount, RateTotal.Amount, RateTotal.Base, RateTotalSurcharge.Amount, cell(num.Amount)
+//@   ensures [sum] t.sum == old(t.Sum) && t.Sum == old(num.rescaleS(t.Sum, zero.exp))
+//@   ensures [cats] forall i int :: 0 <= i && i < len(t.Categories) ==> t.Categories[i].amount == old(t.Categories[i].Amount) && t.Categories[i].Amount == old(num.rescaleS(t.Categories[i].Amount, zero.exp))
+//@   ensures [rows] forall i int, j int :: 0 <= i && i < len(t.Categories) && 0 <= j && j < len(t.Categories[i].Rates) ==> t.Categories[i].Rates[j].Amount == old(num.rescaleS(t.Categories[i].Rates[j].Amount, zero.exp)) && t.Categories[i].Rates[j].Base == old(num.rescaleS(t.Categories[i].Rates[j].Base, zero.exp))
+//@   loop 1 invariant t.Sum == old(t.Sum) && t.sum == old(t.sum)
+//@   loop 1 invariant forall i int :: 0 <= i && i < idx ==> t.Categories[i].amount == old(t.Categories[i].Amount) && t.Categories[i].Amount == old(num.rescaleS(t.Categories[i].Amount, zero.exp))
+//@   loop 1 invariant forall i int :: idx <= i && i < len(t.Categories) ==> t.Categories[i].Amount == old(t.Categories[i].Amount)
+//@   loop 1 invariant forall i int, j int :: 0 <= i && i < idx && 0 <= j && j < len(t.Categories[i].Rates) ==> t.Categories[i].Rates[j].Amount == old(num.rescaleS(t.Categories[i].Rates[j].Amount, zero.exp)) && t.Categories[i].Rates[j].Base == old(num.rescaleS(t.Categories[i].Rates[j].Base, zero.exp))
+//@   loop 1 invariant forall i int, j int :: idx <= i && i < len(t.Categories) && 0 <= j && j < len(t.Categories[i].Rates) ==> t.Categories[i].Rates[j].Amount == old(t.Categories[i].Rates[j].Amount) && t.Categories[i].Rates[j].Base == old(t.Categories[i].Rates[j].Base)
+//@   loop 2 invariant t.Sum == old(t.Sum) && t.sum == old(t.sum)
+//@   loop 2 invariant forall i int :: 0 <= i && i < idx1 ==> t.Categories[i].amount == old(t.Categories[i].Amount) && t.Categories[i].Amount == old(num.rescaleS(t.Categories[i].Amount, zero.exp))
+//@   loop 2 invariant forall i int :: idx1 <= i && i < len(t.Categories) ==> t.Categories[i].Amount == old(t.Categories[i].Amount)
+//@   loop 2 invariant forall i int, j int :: 0 <= i && i < idx1 && 0 <= j && j < len(t.Categories[i].Rates) ==> t.Categories[i].Rates[j].Amount == old(num.rescaleS(t.Categories[i].Rates[j].Amount, zero.exp)) && t.Categories[i].Rates[j].Base == old(num.rescaleS(t.Categories[i].Rates[j].Base, zero.exp))
+//@   loop 2 invariant forall i int, j int :: idx1 < i && i < len(t.Categories) && 0 <= j && j < len(t.Categories[i].Rates) ==> t.Categories[i].Rates[j].Amount == old(t.Categories[i].Rates[j].Amount) && t.Categories[i].Rates[j].Base == old(t.Categories[i].Rates[j].Base)
+//@   loop 2 invariant forall j int :: 0 <= j && j < idx ==> t.Categories[idx1].Rates[j].Amount == old(num.rescaleS(t.Categories[idx1].Rates[j].Amount, zero.exp)) && t.Categories[idx1].Rates[j].Base == old(num.rescaleS(t.Categories[idx1].Rates[j].Base, zero.exp))
+//@   loop 2 invariant forall j int :: idx <= j && j < len(t.Categories[idx1].Rates) ==> t.Categories[idx1].Rates[j].Amount == old(t.Categories[idx1].Rates[j].Amount) && t.Categories[idx1].Rates[j].Base == old(t.Categories[idx1].Rates[j].Base)
+//
+//@ pred catStep(ct *CategoryTotal, acc num.Amount, amt num.Amount, rr cbc.Key) num.Amount = ite(ct.Retained, subS(matchRR(rr, acc, amt), amt), addS(matchRR(rr, acc, amt), amt))
+//@ rec foldCats(cs []*CategoryTotal, k int, zero num.Amount, rr cbc.Key) num.Amount = ite(k <= 0, zero, catStep(cs[k-1], foldCats(cs, k - 1, zero, rr), foldRows(cs[k-1].Rates, len(cs[k-1].Rates), zero, rr), rr))
+//
+//@ func (t *Total) calculateFinalSum(zero, rr) ()
+//@   opaque rha pow10
+//@   requires t != nil && catsOK(t)
+//@   requires forall i int :: 0 <= i && i < len(t.Categories) ==> t.Categories[i].Surcharge == nil
+//@   modifies Total.Sum, CategoryTotal.Amount, CategoryTotal.Surcharge, RateTotal.Amount, RateTotalSurcharge.Amount
+//@   ensures [sum] t.Sum == old(foldCats(t.Categories, len(t.Categories), zero, rr))
+//@   ensures [cats] forall i int :: 0 <= i && i < len(t.Categories) ==> t.Categories[i].Amount == old(foldRows(t.Categories[i].Rates, len(t.Categories[i].Rates), zero, rr))
+//@   loop 1 invariant t.Sum == old(foldCats(t.Categories, idx, zero, rr)) && t.Categories == old(t.Categories) && zero == old(zero)
+//@   loop 1 invariant forall i int :: 0 <= i && i < idx ==> t.Categories[i].Amount == old(foldRows(t.Categories[i].Rates, len(t.Categories[i].Rates), zero, rr))
+//@   loop 1 invariant forall i int :: 0 <= i && i < len(t.Categories) ==> t.Categories[i].Surcharge == nil
